@@ -19,7 +19,7 @@ type Case struct {
 }
 
 var cfg = func() gen.Cfg {
-	c := gen.Default
+	c := gen.WithEmptyName
 	c.Nums = append(append([]string{}, c.Nums...), "9007199254740993", "0.1000000000000000055511151231257827", "123456789012345678901234567890", "1e-400")
 	return c
 }()
